@@ -132,7 +132,17 @@ class C04(Prop):
                 out.append({"name": "layout%d" % c, "ops": ops, "sticky": 1, "meta": {"kind": kind, "geom": "layout", "nrec": len(meta["recs"])}})
                 continue
             fmt = "fasta"
-            if rng.random() < 0.22:
+            if rng.random() < 0.05:
+                fmt = "hmmpgmd"          # '#' header line + FASTA
+                data, meta = S.gen_hmmpgmd(rng, kind)
+            elif rng.random() < 0.07:
+                fmt = "daemon"           # multi-record daemon streams (every record ends with a // line)
+                # (the daemon reader requires each // terminator inside one read buffer: default block size, stream shorter than a block;
+                #  it is a pipe format: no repositioning, hence no reverse-strand windows)
+                data, meta = S.gen_daemon(rng, kind)
+                while len(data) > 3900:
+                    data, meta = S.gen_daemon(rng, kind, nrec=2)
+            elif rng.random() < 0.22:
                 fmt = rng.choice(["embl", "uniprot", "genbank", "ddbj"])
                 if fmt == "uniprot":
                     kind = "amino"
@@ -150,7 +160,7 @@ class C04(Prop):
                     call = rng.choice(["read", "readinfo", "readseq", "win"])
                     abc2 = rng.choice(["text", kind])
                     ops.append("srcscan src=%s fmt=%s abc=%s B=%d call=%s C=%d W=%d" % (
-                        rng.choice(["gzip", "stdin"]), fmt if rng.random() < 0.6 else "unknown", abc2, rng.choice(S.BSIZES), call,
+                        rng.choice(["gzip", "stdin"]), fmt if (rng.random() < 0.6 or fmt in ("daemon", "hmmpgmd")) else "unknown", abc2, rng.choice(S.BSIZES) if fmt != "daemon" else 4096, call,
                         rng.choice([0, 2, 10]), rng.choice([1, 7, 60, 5000])))
             nsess = rng.choice([2, 3, 4])
             for s in range(nsess):
@@ -158,12 +168,16 @@ class C04(Prop):
                 B = rng.choice(S.BSIZES + [rng.randrange(1, 40)])
                 if sum(len(r["seq"]) for r in meta["recs"]) > 4000 and B < 7:
                     B = rng.choice([7, 64, 4096])
-                ops.append("open fmt=%s abc=%s B=%d" % (fmt if rng.random() < 0.8 else "unknown", abc, B))
-                if abc == "text" and rng.random() < 0.15 and (fmt == "fasta" or B == 4096):
+                if fmt == "daemon":
+                    B = 4096
+                ops.append("open fmt=%s abc=%s B=%d" % (fmt if (rng.random() < 0.8 or fmt in ("daemon", "hmmpgmd")) else "unknown", abc, B))
+                if abc == "text" and rng.random() < 0.15 and (fmt == "fasta" or (B == 4096 and fmt != "hmmpgmd")):
                     # (line-based formats with a first line longer than the read block lose the start of the recording: the first
                     #  loadbuf at open overwrites <mem> before recording starts - latent with the default block size, see report)
                     ops.append("guessabc")      # must leave the handle at the start of the file
                 mode = rng.choice(["read", "info", "seq", "mixed", "win", "win", "winrev", "rt" if fmt == "fasta" else "winrev", "block"])
+                if fmt in ("daemon", "hmmpgmd") and mode == "rt" or fmt == "daemon" and mode == "winrev":
+                    mode = "win"
                 if mode == "block":
                     total = sum(len(r["seq"]) for r in meta["recs"])
                     lng = 1 if abc in ("dna", "rna") and rng.random() < 0.7 else 0
@@ -179,7 +193,7 @@ class C04(Prop):
                     continue
                 if mode in ("read", "info", "seq"):
                     ops += [{"read": "read", "info": "readinfo", "seq": "readseq"}[mode]] * (nrec + 1)
-                    if rng.random() < 0.4:
+                    if rng.random() < 0.4 and fmt != "hmmpgmd":     # (rewinding an hmmpgmd file lands on its # header line again)
                         # esl_sqfile_Position: rewind and read again (to the monitor a second pass over the same records)
                         ops += ["close", "open fmt=%s abc=%s B=%d" % (fmt, abc, B), "read", "pos off=0"] + [rng.choice(["read", "readinfo", "readseq"]) for _ in range(nrec + 1)]
                 elif mode == "mixed":
